@@ -80,6 +80,7 @@ impl<T: RealNumber, M: Matrix<T>> InteriorPointOptimizer<T, M> {
         let mut nu = M::zeros(n, 1);
         let mut dobj = T::zero();
         let mut s = T::infinity();
+        let mut stalls = 0usize;
         let mut t = T::one()
             .max(T::one() / lambda)
             .min(T::two() * p_f64 / T::from(1e-3).unwrap());
@@ -145,6 +146,18 @@ impl<T: RealNumber, M: Matrix<T>> InteriorPointOptimizer<T, M> {
             let normg = grad.norm2();
             let mut pcgtol = min_pcgtol.min(eta * gap / T::one().min(normg));
             if ntiter != 0 && pitr == 0 {
+                pcgtol *= min_pcgtol;
+            }
+            // a rejected step (the previous line search shrank s to nothing) means the Newton system was not
+            // solved accurately enough for its solution to be a descent direction: restart the linear solver
+            // from zero with the tolerance tightened once more for every rejected step in a row
+            if s < T::epsilon() {
+                stalls += 1;
+                dxu = M::zeros(2 * p, 1);
+            } else {
+                stalls = 0;
+            }
+            for _ in 0..stalls {
                 pcgtol *= min_pcgtol;
             }
 
